@@ -1,0 +1,16 @@
+//go:build verif
+
+package openflow13
+
+// Accessors for the verification harness in /verif (build tag "verif" only).
+// They add no behaviour: each forwards to an unexported helper unchanged.
+
+func VerifEncodeOfsNbits(ofs uint16, nBits uint16) uint16 { return encodeOfsNbits(ofs, nBits) }
+
+func VerifEncodeOfsNbitsStartEnd(start uint16, end uint16) uint16 {
+	return encodeOfsNbitsStartEnd(start, end)
+}
+
+func VerifDecodeOfs(ofsNbits uint16) uint16 { return decodeOfs(ofsNbits) }
+
+func VerifDecodeNbits(ofsNbits uint16) uint16 { return decodeNbits(ofsNbits) }
